@@ -6,6 +6,7 @@ import Driver.Codec
 import Driver.Span
 import Driver.Lines
 import Driver.Html
+import Driver.Tree
 open Lean
 
 def dispatch (op : String) (j : Json) : Except String Json :=
@@ -14,6 +15,8 @@ def dispatch (op : String) (j : Json) : Except String Json :=
   | "lines.normalize" => Driver.Lines.normalizeOp j
   | "html.render" => Driver.Html.renderOp j
   | "escape" => Driver.Html.escapeOp j
+  | "traverse" => Driver.Tree.traverseOp j
+  | "ast.get" => Driver.Tree.getAstOp j
   | "ping" => pure (Json.str "pong")
   | _ => throw s!"unknown op {op}"
 
